@@ -290,12 +290,20 @@ pub mod shim {
         #[verifier::external_body] fn to_le_bytes_v(self) -> (r: [u8; 16])
             ensures r@.len() == 16 { self.to_le_bytes() }
     }
+    /// the eight little-endian bytes of a u64 (opaque: the div/mod digits stay out of the solver's way unless revealed)
+    #[verifier::opaque]
+    pub open spec fn le8(x: u64) -> Seq<u8> {
+        seq![(x % 256) as u8, ((x / 0x100) % 256) as u8, ((x / 0x10000) % 256) as u8, ((x / 0x1000000) % 256) as u8,
+             ((x / 0x100000000) % 256) as u8, ((x / 0x10000000000) % 256) as u8, ((x / 0x1000000000000) % 256) as u8, (x / 0x100000000000000) as u8]
+    }
+    pub broadcast proof fn lemma_le8_len(x: u64)
+        ensures (#[trigger] le8(x)).len() == 8
+    { reveal(le8); }
     impl BytesShim for u64 { type Out = [u8; 8];
         #[verifier::external_body] fn to_be_bytes_v(self) -> (r: [u8; 8])
             ensures r@.len() == 8 { self.to_be_bytes() }
         #[verifier::external_body] fn to_le_bytes_v(self) -> (r: [u8; 8])
-            ensures r@ == seq![(self % 256) as u8, ((self / 0x100) % 256) as u8, ((self / 0x10000) % 256) as u8, ((self / 0x1000000) % 256) as u8,
-                               ((self / 0x100000000) % 256) as u8, ((self / 0x10000000000) % 256) as u8, ((self / 0x1000000000000) % 256) as u8, (self / 0x100000000000000) as u8] { self.to_le_bytes() }
+            ensures r@ == le8(self) { self.to_le_bytes() }
     }
     impl BytesShim for u32 { type Out = [u8; 4];
         #[verifier::external_body] fn to_be_bytes_v(self) -> (r: [u8; 4])
